@@ -319,7 +319,17 @@ func (m *VM) applyMut(data, donor []byte, mu Mut) ([]byte, bool) {
 		// proofs a key-less party can assemble from public parts of the token
 		last := all[n-1]
 		rnd := seedFrom(last.Signature[:min(32, len(last.Signature))], byte(mu.Val))
-		switch abs(mu.Val) % 8 {
+		switch abs(mu.Val) % 11 {
+		case 8: // a proof message that is present and says nothing
+			env.NextSecret, env.FinalSignature, env.ProofRaw = nil, nil, []byte{}
+		case 9, 10: // the genuine proof moved to a field number the schema does not know (one changed tag byte)
+			var w ref.W
+			body := env.FinalSignature
+			if body == nil {
+				body = env.NextSecret
+			}
+			w.FBytes(3+abs(mu.Val)%2*4, body)
+			env.NextSecret, env.FinalSignature, env.ProofRaw = nil, nil, w.B
 		case 0: // the announced public key offered as the secret
 			env.NextSecret, env.FinalSignature = append([]byte{}, last.Key...), nil
 		case 1: // 64 bytes "expanded key": arbitrary seed half, announced key as public half
